@@ -159,6 +159,48 @@ def corpus():
     add("history_object_add", ["b2=" + obj_n(11), "dc0,2", "b1=i7"], ["oa0,1,%s" % hx(b"new")])
     add("history_array_put", ["b2=" + arr_n(32), "dc0,2", "b1=i7"], ["ap0,1,31"])
     add("history_set_string", [tp(0, 0, 32, b'"' + LONG[:40] + b'" ')], ["ss0,%s" % hx(LONG[:41]), "ss0,%s" % hx(LONG[:3])])
+    # ---- operations that are not supposed to need memory, and those that give memory back.  Every allocation
+    #      index of the test part is failed in turn (N is what THIS tree's fault-free run requests, so an allocation
+    #      a change introduces is counted and failed), and once more with EVERY request refused ('A').
+    #      A call that reports failure must leave everything unchanged; one that changed something reports success.
+    def quiet(kind, setup, test):
+        add(kind, setup, test, ks="*,A")
+    for n in (33, 40, 64, 65, 129, 300):
+        cap = 32
+        while cap <= n:
+            cap *= 2                                        # capacity after n adds: the add that fills the array doubles it
+        q = cap // 4
+        for left in sorted(set([0, 1, q - 1, q, q + 1, n - 1])):
+            if 0 <= left < n:
+                quiet("array_del", ["b0=" + arr_n(n, val="[i%d]")], ["ad0,0,%d" % (n - left)])            # bulk, from the front
+                quiet("array_del", ["b0=" + arr_n(n)], ["ad0,%d,%d" % (left, n - left)])                   # bulk, the tail
+        quiet("array_del", ["b0=" + arr_n(n)], ["ad0,%d,1" % (n - 1), "ad0,0,1", "ad0,5,20", "ad0,0,%d" % (n - 22)])   # single, then bulk to empty
+        quiet("array_del", ["b0=" + arr_n(n)], ["ad0,%d,1" % n])                                           # refused: nothing there
+        quiet("array_del", ["b0=" + arr_n(n)], ["ad0,3,%d" % n])                                           # refused: range too long
+        for slack in (0, 1, n, 1000):
+            quiet("array_shrink", ["b0=" + arr_n(n)], ["as0,%d" % slack])
+        quiet("array_shrink", ["b0=" + arr_n(n), "ad0,0,%d" % (n - 3)], ["as0,0", "as0,5", "as0,0"])
+        quiet("array_put", ["b0=" + arr_n(n), "b1=[i1]"], ["ap0,1,%d" % (n // 2)])                          # replace in place
+        quiet("array_put", ["b0=" + arr_n(n), "b1=n"], ["ap0,1,0"])
+        # JSON Patch remove / move on a big array: in place and on a copy
+        rm = "[" + ",".join("{6f70=s72656d6f7665,70617468=s%s}" % hx(b"/a/0") for _ in range(min(n - 2, 60))) + "]"
+        quiet("patch_remove", ["b0={61=" + arr_n(n) + "}", "b1=" + rm], ["pi0,1"])
+        quiet("patch_remove", ["b0={61=" + arr_n(n) + "}", "b1=" + rm], ["pa2,0,1"])
+        mv = "[{6f70=s6d6f7665,66726f6d=s%s,70617468=s%s},{6f70=s6d6f7665,66726f6d=s%s,70617468=s%s}]" % (
+            hx(b"/a/%d" % (n - 1)), hx(b"/a/0"), hx(b"/a/0"), hx(b"/b"))
+        quiet("patch_move", ["b0={61=" + arr_n(n) + "}", "b1=" + mv], ["pi0,1"])
+    quiet("array_del", [tp(0, 0, 32, b"[" + b",".join(b"%d" % i for i in range(70)) + b"] ")], ["ad0,0,69"])     # parsed: capacity == length
+    quiet("array_del", ["b0=" + arr_n(70), "as0,0"], ["ad0,1,68"])
+    quiet("array_del", ["b0=" + arr_n(5)], ["ad0,0,5"])
+    for m in (1, 11, 12, 40):
+        quiet("object_del", ["b0=" + obj_n(m, val="[i%d]")], ["od0,%s" % hx(b"k0"), "od0,%s" % hx(b"k%d" % (m - 1)), "od0,%s" % hx(b"nope")])
+    quiet("object_del", ["b0=" + obj_n(40)], ["od0,%s" % hx(b"k%d" % i) for i in range(0, 40, 2)][:30])
+    quiet("object_add", ["b0=" + obj_n(12), "b1=s78"], ["oa0,1,%s" % hx(b"k3")])                            # replace: no allocation
+    quiet("set_inplace", ["b0=i5"], ["si0,-9223372036854775807", "ia0,7", "ia0,-9", "si0,0"])
+    quiet("set_inplace", ["b0=d3ff8000000000000:312e35"], ["sd0,4000000000000000"])                          # drops the retained text
+    quiet("set_inplace", ["b0=t"], ["sb0,0", "sb0,1"])
+    quiet("set_inplace", ["b0=s" + hx(LONG[:60])], ["sl0,%s,10" % hx(LONG[:10]), "sl0,-,0", "ss0,%s" % hx(b"abc")])   # shorter: in place
+    quiet("set_inplace", ["b0=u18446744073709551615"], ["ia0,1", "si0,3"])
     # ---- strings across the inline threshold and in separate storage
     add("set_string", ["b0=s616263"], ["ss0,%s" % hx(b"abcd")])
     add("set_string", ["b0=s616263"], ["ss0,%s" % hx(b"x" * 9), "ss0,%s" % hx(b"y" * 30), "ss0,%s" % hx(b"z" * 10), "sl0,%s,0" % hx(b""), "sl0,%s,60" % hx(LONG[:60])])
@@ -345,6 +387,28 @@ def gen_random(rng, n, doubles=0):
             kind, setup, test = "r_set_string", ["b0=s" + hx(bytes(rng.randrange(1, 256) for _ in range(l0)))], steps
             if rng.random() < 0.6:
                 setup, test = setup + steps[:-1], steps[-1:]
+        elif r < 0.935:
+            # no-memory / shrinking operations on random sizes
+            n_ = rng.choice([1, 5, 31, 32, 33, 40, 63, 64, 65, 100, 128, 129, 200, 257])
+            cap = 32
+            while cap <= n_:
+                cap *= 2
+            setup, ln, test = ["b0=" + arr_n(n_, val=rng.choice(["i%d", "[i%d]", "s%02x"]))], n_, []
+            if rng.random() < 0.3:
+                setup.append("as0,%d" % rng.choice([0, 1, 9]))
+            for _ in range(rng.randint(1, 3)):
+                c = rng.random()
+                if c < 0.6 and ln > 0:
+                    left = rng.choice([0, 1, cap // 4 - 1, cap // 4, cap // 4 + 1, cap // 8, ln - 1, rng.randint(0, ln)])
+                    cnt_ = max(1, ln - max(0, min(left, ln)))
+                    idx = rng.choice([0, ln - cnt_, rng.randint(0, ln - cnt_)])
+                    test.append("ad0,%d,%d" % (idx, cnt_))
+                    ln -= cnt_
+                elif c < 0.8:
+                    test.append("as0,%d" % rng.choice([0, 0, 1, ln, 500]))
+                else:
+                    test.append("ad0,%d,%d" % (ln + rng.randint(0, 2), rng.randint(1, 3)))
+            kind = "r_quiet"
         elif r < 0.945:
             fmts = [hx(f) for f in (b"%.3f", b"%.0f", b"%.17g", b"%f", b"%.1f|" + b"x" * 40)] + ["-"]
             hist = ["df%s,%s" % (rng.choice("gt"), rng.choice(fmts)) for _ in range(rng.randint(0, 5))]
@@ -422,12 +486,14 @@ def gen_random(rng, n, doubles=0):
             key = bytes(rng.choice(b"abc~/01") for _ in range(rng.randint(1, 4))).replace(b"~", b"~0").replace(b"/", b"~1")
             kind, setup, test = "r_pointer_set", ["b0={61=" + tree + "}", "b1=i9"], ["ps0,1,%s" % hx(rng.choice([b"/", b"/a/", b"/a/-", b"/a/0", b"/b/"]) + key)]
         ks = "*"
+        if kind == "r_quiet":
+            ks = "*,A"
         if doubles:
             extra = []
             for _ in range(doubles):
                 k = rng.randint(0, 40)
                 extra.append(rng.choice(["%d+%d" % (k, rng.randint(0, 6)), "%d+0" % k, "%d^%d" % (k, rng.choice([16, 48, 64, 100, 300]))]))
-            ks = "*," + ",".join(extra)
+            ks = ks + "," + ",".join(extra)
         out.append((line(ks, setup, test), {"kind": kind}))
     return out
 
@@ -448,7 +514,7 @@ def gen(rng, tier):
 
 
 # ------------------------------------------------------------------ oracle
-TOK = re.compile(r"^([0-9+^]+):(N|F|D)(\d*):([uc-])(-?\d+)(?:h(-?\d+))?$")
+TOK = re.compile(r"^([0-9+^A]+):(N|F|D)(\d*):([uc-])(-?\d+)(?:h(-?\d+))?$")
 
 
 def parse_obs(o):
@@ -487,7 +553,7 @@ def findings(line_, impl):
     if "!UNSTABLE" in ob["base"]:
         put("malformed", "two fault-free runs of the workload differ: " + ob["base"][-40:])
     ks = line_.split(" ")[1]
-    if ks == "*" and len(ob["toks"]) != ob["n"]:
+    if ks in ("*", "*,A") and len(ob["toks"]) != ob["n"] + (1 if ks.endswith("A") else 0):
         put("malformed", "expected %d fault runs, got %d" % (ob["n"], len(ob["toks"])))
     for t in ob["toks"]:
         opk = ops[t["op"]][:2] if 0 <= t["op"] < len(ops) else "??"
